@@ -280,10 +280,16 @@ impl FromStr for PartialDSym {
             Err("size must be at least 1".into())
         } else if spec.dim < 1 {
             Err("dimension must be at least 1".into())
-        } else if spec.op_spec.len() != spec.dim as usize + 1 {
+        } else if Some(spec.op_spec.len()) != spec.dim.checked_add(1) {
             Err("incorrect dimension for op specifications".into())
         } else if spec.m_spec.len() != spec.dim as usize {
             Err("incorrect dimension for degree specifications".into())
+        } else if spec.op_spec.iter().any(|op_i|
+            op_i.len() > spec.size || op_i.len() < spec.size - spec.size / 2
+        ) {
+            // an involution on 1..size is given by size/2 to size images;
+            // checking this first bounds the allocation by the input length
+            Err("op spec does not match size".into())
         } else {
             let mut dset = PartialDSet::new(spec.size, spec.dim);
 
@@ -295,6 +301,11 @@ impl FromStr for PartialDSym {
                     if dset.op_unchecked(i, d) == 0 {
                         let &di = op_i.get(k)
                             .ok_or("incomplete op spec".to_string())?;
+                        if di < 1 || di > spec.size {
+                            return Err("op image out of range".into());
+                        } else if dset.op_unchecked(i, di) != 0 {
+                            return Err("inconsistent op spec".into());
+                        }
                         dset.set(i, d, di);
                         k += 1;
                     }
